@@ -312,6 +312,52 @@ fn call(f: &str, a: &[Value]) -> Value {
         }
         // C15: placeholder workflow through the public API; the manifest grows by an assertion of `a[0]` bytes after the
         // placeholder was handed out.  -> lengths of the composed placeholder and of the signed result
+        // C15 replay battery: the placeholder workflow through the public API for a family of scenarios; returns every scenario in which
+        // sign_embeddable returned Ok with a length different from the placeholder that was handed out last.
+        // args = [format]
+        "embeddable_scenarios" => {
+            let format = s(&a[0]).to_string();
+            let settings: String = std::fs::read_to_string("/repo/sdk/tests/fixtures/test_settings.toml").expect("fixture settings")
+                .lines().filter(|l| !l.trim_start().starts_with("tsa_url")).collect::<Vec<_>>().join("\n");
+            let jpeg = std::fs::read("/repo/sdk/tests/fixtures/cloud.jpg").expect("fixture jpeg");
+            let mut bad: Vec<Value> = Vec::new();
+            let mut ran = 0usize;
+            let mut run = |n_extra: usize, start: u64, len: u64, grow: usize, twice: bool| {
+                let ctx = match c2pa::Context::new().with_settings(c2pa::Settings::new().with_toml(&settings).expect("settings")) { Ok(c) => c, Err(_) => return };
+                let def = r#"{"title": "verif", "format": "image/jpeg", "claim_generator_info": [{"name": "verif-native", "version": "0.1"}]}"#;
+                let mut b = match c2pa::Builder::from_context(ctx).with_definition(def) { Ok(b) => b, Err(_) => return };
+                b.set_intent(c2pa::BuilderIntent::Create(c2pa::DigitalSourceType::DigitalCapture));
+                let mut ph = match b.placeholder(&format) { Ok(p) => p, Err(_) => return };
+                if ph.is_empty() { return; }
+                let mut ex = vec![c2pa::HashRange::new(2, ph.len() as u64)];
+                for i in 0..n_extra { ex.push(c2pa::HashRange::new(start + 1000 * i as u64, len)); }
+                if twice {
+                    if b.set_data_hash_exclusions(vec![c2pa::HashRange::new(2, 10)]).is_err() { return; }
+                    ph = match b.placeholder(&format) { Ok(p) => p, Err(_) => return };
+                    ex[0] = c2pa::HashRange::new(2, ph.len() as u64);
+                }
+                if grow > 0 && b.add_assertion("org.contentauth.test", &json!({"blob": "x".repeat(grow)})).is_err() { return; }
+                if b.set_data_hash_exclusions(ex).is_err() { return; }
+                if b.update_hash_from_stream(&format, &mut std::io::Cursor::new(jpeg.clone())).is_err() { return; }
+                ran += 1;
+                if let Ok(v) = b.sign_embeddable(&format) {
+                    if v.len() != ph.len() {
+                        bad.push(json!({"n_extra": n_extra, "start": start, "len": len, "grow": grow, "twice": twice, "placeholder_len": ph.len(), "signed_len": v.len()}));
+                    }
+                }
+            };
+            for twice in [false, true] {
+                for grow in [0usize, 40, 5000] {
+                    run(0, 0, 0, grow, twice);
+                }
+            }
+            for n_extra in 1..=9usize {
+                for (start, len) in [(100u64, 2u64), (100, 30), (14000, 30), (14000, 300), (70000, 30), (70000, 300), (70000, 70000)] {
+                    run(n_extra, start, len, 0, false);
+                }
+            }
+            json!({"ran": ran, "mismatches": bad})
+        }
         "sign_embeddable_growth_summary" => {
             let r = call("sign_embeddable_growth", a);
             if r.get("setup_error").is_some() { return r; }
@@ -492,6 +538,12 @@ fn call(f: &str, a: &[Value]) -> Value {
             cur.set_position(a[1].as_u64().unwrap());
             json!({"ok": c2pa::verif_hooks::boxes::BoxReader::read_desc_box(&mut cur, a[2].as_u64().unwrap()).is_ok()})
         }
+        "jumbf_super_box" => {
+            let data: Vec<u8> = s(&a[0]).chars().map(|c| c as u32 as u8).collect();
+            let mut cur = std::io::Cursor::new(data);
+            cur.set_position(a[1].as_u64().unwrap());
+            json!({"ok": c2pa::verif_hooks::boxes::BoxReader::read_super_box(&mut cur).is_ok()})
+        }
         "jumbf_content_boxes" => {
             let data: Vec<u8> = s(&a[0]).chars().map(|c| c as u32 as u8).collect();
             let mk = || { let mut c = std::io::Cursor::new(data.clone()); c.set_position(a[1].as_u64().unwrap()); c };
@@ -581,6 +633,23 @@ fn call(f: &str, a: &[Value]) -> Value {
             json!({"ok": res.is_ok(), "cancelled": matches!(res, Err(c2pa::Error::OperationCancelled)), "steps": steps})
         }
         // real range hashing: args = [data (latin-1 text), [[start,len]..] | null, is_exclusion, max_hash_buf, expected bytes (hex)]
+        // C01: the range-hashing routine with a chosen internal buffer size over two data strings (real SHA-256):
+        // args = [d0, d1, [[start, len], ...], max_buf] -> would a hash generated over d0 verify against d1?
+        "data_hash_tamper_chunked" => {
+            let mk = |v: &Value| -> Vec<u8> { s(v).chars().map(|c| c as u32 as u8).collect() };
+            let ranges = |_: ()| -> Option<Vec<c2pa::HashRange>> {
+                let rs = a[2].as_array().unwrap();
+                if rs.is_empty() { None } else { Some(rs.iter().map(|r| c2pa::HashRange::new(r[0].as_u64().unwrap(), r[1].as_u64().unwrap())).collect()) }
+            };
+            let maxbuf = a[3].as_u64().unwrap() as usize;
+            let h0 = c2pa::verif_hooks::hash_hooks::hash_stream_with_max_buf("sha256", &mut std::io::Cursor::new(mk(&a[0])), ranges(()), true, maxbuf, &mut |_, _| Ok(()));
+            let h1 = c2pa::verif_hooks::hash_hooks::hash_stream_with_max_buf("sha256", &mut std::io::Cursor::new(mk(&a[1])), ranges(()), true, maxbuf, &mut |_, _| Ok(()));
+            match (h0, h1) {
+                (Ok(x), Ok(y)) => json!({"gen_ok": true, "verify_ok": c2pa::verif_hooks::merkle::vec_compare(&x, &y)}),
+                (Ok(_), Err(_)) => json!({"gen_ok": true, "verify_ok": false}),
+                _ => json!({"gen_ok": false, "verify_ok": false}),
+            }
+        }
         "hash_ranges" => {
             let data: Vec<u8> = s(&a[0]).chars().map(|c| c as u32 as u8).collect();
             let ranges = a[1].as_array().map(|rs| rs.iter().map(|r| {
